@@ -8,6 +8,7 @@ package dht
 
 import (
 	"context"
+	ci "github.com/libp2p/go-libp2p/core/crypto"
 	"testing"
 	"time"
 
@@ -25,7 +26,17 @@ type pkSc struct {
 	TargetAns string `json:"target_ans"` // what the node itself answers: own | foreign | garbage | none | otherkey | fail | silent
 	TargetLat int    `json:"target_lat_ms"`
 	CancelMs  int    `json:"cancel_ms,omitempty"`
+	LaxPk     bool   `json:"lax_pk_validator,omitempty"` // the /pk namespace has a validator that accepts any well-formed key (a forked network may configure its own)
 }
+
+// laxPkValidator accepts every value that is a well-formed public key, whatever key it is filed under.
+type laxPkValidator struct{}
+
+func (laxPkValidator) Validate(key string, value []byte) error {
+	_, err := ci.UnmarshalPublicKey(value)
+	return err
+}
+func (laxPkValidator) Select(string, [][]byte) (int, error) { return 0, nil }
 
 func pkRecord(code int, key string, target int) *recpb.Record {
 	own, _ := simPubKey(target)
@@ -49,7 +60,7 @@ func TestVerif_C04_PublicKey(t *testing.T) {
 		Property: "C04", Part: "public-key",
 		Rule: "rapid: GetPublicKey for a peer whose key is not inlined in its id (fixed ECDSA keys), over a C01-style network of 1-20 peers whose /pk/ answers are drawn from {the right key, another peer's valid key, a record filed " +
 			"under another key, garbage, nothing} and a target node that itself answers with its own key, another peer's key, garbage, a record under another key, nothing, an error or silence, after a drawn latency (so that either " +
-			"source can win the race); oracle: a returned key hashes to the requested peer id, the key the peerstore holds afterwards does too, and when the node itself delivered its own key the call succeeds; " +
+			"source can win the race), with the standard /pk validator or one that accepts any well-formed key; oracle: a returned key hashes to the requested peer id, the key the peerstore holds afterwards does too, and when the node itself delivered its own key the call succeeds; " +
 			"non-trivial = a wrong but well-formed key was served by the node itself or by a DHT responder",
 		Gen: func(t *rapid.T) pkSc {
 			var sc pkSc
@@ -76,6 +87,7 @@ func TestVerif_C04_PublicKey(t *testing.T) {
 			if verifsim.Chance(t, "cancel", 10) {
 				sc.CancelMs = rapid.IntRange(1, 6000).Draw(t, "cancelMs")
 			}
+			sc.LaxPk = verifsim.Chance(t, "laxPk", 25)
 			return sc
 		},
 		Run: func(t *testing.T, sc pkSc) (res verifsim.Result) {
@@ -94,7 +106,11 @@ func TestVerif_C04_PublicKey(t *testing.T) {
 					}
 					return nil
 				}
-				env, err := newSimEnv(s, hook, Validator(record.NamespacedValidator{"pk": record.PublicKeyValidator{}, "v": simValidator{}}))
+				var pkVal record.Validator = record.PublicKeyValidator{}
+				if sc.LaxPk {
+					pkVal = laxPkValidator{}
+				}
+				env, err := newSimEnv(s, hook, Validator(record.NamespacedValidator{"pk": pkVal, "v": simValidator{}}))
 				if err != nil {
 					newErr = err
 					return
